@@ -859,6 +859,12 @@ func (b mirrorBackend) Upload(ctx context.Context, key string, data []byte, opts
 		}
 		return nil
 	case "mck":
+		if r.parkAtMck {
+			// the commit stops here, between its lock-store write and the publication, holding whatever it holds
+			r.parkAtMck = false
+			r.ev <- mirrorEvent{kind: mirrorParkedUpload}
+			<-r.rel
+		}
 		if r.addck {
 			s.w.fail("mirror-unexpected-op", "add-checkpoint request %d uploaded %q", r.rid, key)
 		}
